@@ -95,6 +95,11 @@ class ObjMixin:
                 return Builtin('str.' + name, lambda *a, _s=obj.value, _n=name, **k: getattr(_s, _n)(*a, **k))
             self.attr_error(obj, name)
         if isinstance(obj, SymEnum):
+            if obj.np_str:
+                # numpy.str_: str methods exist, enum-member attributes do not
+                if hasattr(str, name):
+                    return self._getattr(NPStr(self.split_enum(obj)), name)
+                self.raise_('AttributeError', f"'numpy.str_' object has no attribute '{name}'")
             return self._getattr(self.split_enum(obj), name)
         if isinstance(obj, SuperVal):
             return self.super_getattr(obj, name)
@@ -406,6 +411,10 @@ class ObjMixin:
             except IndexError:
                 self.raise_('IndexError', 'index out of range')
         if isinstance(obj, dict):
+            if isinstance(idx, SymEnum):
+                r = self.dict_get_symenum(obj, idx)
+                if r is not MISSING:
+                    return r
             k = self.hashable(idx)
             try:
                 if k in obj:
@@ -434,6 +443,39 @@ class ObjMixin:
         if alts[c] == 'out':
             self.raise_('IndexError', 'index out of range')
         return seq[alts[c]]
+
+    def dict_get_symenum(self, d, key):
+        """d[key] for a symbolic enum key: an if-chain over the members (KeyError path if some member is
+        not a key and that is feasible)."""
+        from .values import is_num
+        vals, missing = {}, []
+        for m in key.cls.members:
+            hit = None
+            for k in d:
+                if (k is m) or (isinstance(k, EnumMember) and k == m) or (isinstance(k, str) and m.kind == 'str' and k == m.value):
+                    hit = d[k]
+                    break
+                if isinstance(k, NPStr) and m.kind == 'str' and k.s == m.value:
+                    hit = d[k]
+                    break
+            if hit is None and not any((k is m) for k in d):
+                missing.append(m)
+            else:
+                vals[m.index] = hit
+        if not all(is_num(v) or isinstance(v, (bool, z3.BoolRef)) for v in vals.values()):
+            return MISSING
+        if missing:
+            bad = z3.Or(*[key.ord == m.index for m in missing])
+            if self.ctx.branch(bad):
+                self.raise_('KeyError', key)
+        items = sorted(vals.items())
+        if not items:
+            self.raise_('KeyError', key)
+        from .models.arrays import _ite
+        r = items[-1][1]
+        for i, v in reversed(items[:-1]):
+            r = _ite(key.ord == i, v, r)
+        return r
 
     def setitem(self, obj, idx, val):
         self.effect()
@@ -766,6 +808,8 @@ class ObjMixin:
             raise Unsupported(f'call depth exceeded at {fi.fq}')
         self.ctx.functions_entered.setdefault(fi.fq, fi.where)
         cached = getattr(fi, 'cached', False)
+        prev_func = self.hooks.get('cur_func')
+        self.hooks['cur_func'] = fi.fq
         try:
             fr = Frame(fi.module, {}, closure=fi.closure, func=fi)
             self.bind_args(fi, args, kwargs, fr)
@@ -778,6 +822,7 @@ class ObjMixin:
             return None
         finally:
             self.depth -= 1
+            self.hooks['cur_func'] = prev_func
 
     # ---------------------------------------------------------------------- classes
     def instantiate(self, cls: ClassInfo, args, kwargs):
